@@ -94,7 +94,10 @@ fn main() {
                 let v: serde_json::Value = serde_json::from_str(&txt).expect("parse scenarios");
                 let mut w = BufWriter::new(File::create(&args[8]).expect("create output"));
                 trace::scripted(&args[3], &v, &mut w);
-                trace::noise(&args[3], args[4].parse().expect("seed"), args[5].parse().expect("runs"), args[6].parse().expect("n"), &mut w);
+                let (seed, runs, n): (u64, usize, usize) =
+                    (args[4].parse().expect("seed"), args[5].parse().expect("runs"), args[6].parse().expect("n"));
+                trace::noise(&args[3], seed, runs, n, &mut w);
+                trace::typist(&args[3], seed, runs, n, &mut w);
                 w.flush().unwrap();
             } else if args.len() >= 6 && args[2] == "script" {
                 let txt = std::fs::read_to_string(&args[4]).expect("read scenarios");
